@@ -207,7 +207,7 @@ func runDirect(r *vf.Run) {
 // current access is exact, and every racing access is the current one in some report, so
 // the key is built from the current access only:
 //
-//	race:<map|mem>@<innermost repo function>[<-<innermost nativeconverter function>]
+//	race:<map|mem>@<innermost nativeconverter function of that stack>
 //
 // A report counts against C19 iff one of its two stacks runs through nativeconverter/.
 func accountRaces(r *vf.Run, reps []vf.RaceReport) {
@@ -250,12 +250,16 @@ func accountRaces(r *vf.Run, reps []vf.RaceReport) {
 			}
 		}
 		acc := accessKind(rep.Text, st)
-		key := "race:" + acc + "@" + inner
+		// One key per (converter function, kind of memory): the frames below the converter
+		// function (estargz.Build, (*Compressor).WriteTOCAndFooter, ...) vary with the moment
+		// at which the shared object is touched and go into the description only.
+		key := "race:" + acc + "@" + conv
+		what := "data race (" + acc + " access in " + inner
 		if conv != inner {
-			key += "<-" + conv
+			what += ", called from " + conv
 		}
-		r.Violate(key, "data race ("+acc+" in "+inner+") on state shared by the concurrent layer conversions of one converter instance",
-			map[string]any{"report": rep.Text})
+		r.Violate(key, what+") on state shared by the concurrent layer conversions of one converter instance",
+			map[string]any{"report": rep.Text, "innermost_repo_function": inner})
 		r.Distinct("c19_attributed_races", key)
 	}
 }
